@@ -128,6 +128,15 @@ class TracepointConfigService:
                 except Exception:
                     logging.exception("Error updating listener %s", listeners)
 
+    def resend_config(self):
+        """
+        Tell the listeners about the config as it is now.
+
+        A handler that was shut down has dropped its config; the service answers 'no change' for as long as we
+        report the hash we still hold, so on the next start the handler has to get the config from us.
+        """
+        self.__trigger_update(self._current_hash, self._tracepoint_config)
+
     def add_listener(self, listener: ConfigUpdateListener):
         """
         Add a new listener to the config.
